@@ -36,10 +36,20 @@ CLAIM = dict(
           "expected deliveries are spelled out over placement / allocation / constraints (expected_cores, expected_exits); "
           "a concrete problem is run through modelPipeline in the kernel (ex_runs: final tables differ from the unminimised "
           "ones) and satisfies every hypothesis (ex_domain, ex_placerDomain). Tied to the code on every run: (a) the real "
-          "pipeline (7 placers x radius x method chain x target, hand-chained and both wrappers with a hand-built "
-          "SystemInfo) runs on generated graphs/machines, Lean `deliver` is executed on the implementation's final "
-          "minimised tables for every net (base key + fillings of the don't-care bits) and its verdict compared with the "
-          "deliveries expected from the implementation's placements, allocations and endpoint constraints; stage "
+          "pipeline (7 placers x radius x method chain x target) runs on generated graphs/machines through every public "
+          "entry: hand-chained (Machine built by hand or by build_machine / build_core_constraints from a SystemInfo with "
+          "busy cores; route() given core_resource positionally, by keyword or - default identifier only - not at all; "
+          "tables by routing_tree_to_tables + minimise_tables or by the deprecated build_routing_tables with and without "
+          "default-route omission), place_and_route_wrapper (SystemInfo incl. busy cores, custom minimise methods as list "
+          "or tuple, vertices_applications) and the deprecated wrapper() (reserve_monitor / align_sdram on and off) - each "
+          "with rig's DEFAULT and with APPLICATION-DEFINED core_resource / sdram_resource / sram_resource identifiers "
+          "(strings, tuples, fresh objects; any subset custom), the stages handed over as custom callables (transparent "
+          "pass-through: the stage receives exactly what the wrapper passes) with their keyword arguments, and the "
+          "placers' optional arguments (sequential vertex_order list / iterator and chip_order incl. non-existent "
+          "coordinates, breadth_first chip_order, hilbert breadth_first=False, annealing effort, kernels); Lean `deliver` "
+          "is executed on the final tables the entry point RETURNED for every net (base key + fillings of the don't-care "
+          "bits) and its verdict compared with the deliveries expected from the returned placements, the returned "
+          "allocations UNDER THE CORES IDENTIFIER THE CALLER NAMED, and the endpoint constraints; stage "
           "correspondences (C10, C04 models and the C01 type bridges) and stage hypotheses are re-checked inside every "
           "pipeline run; (b) the Lean `modelPipeline` itself is run on generated problems with the oracle inputs recorded "
           "from the hand-chained implementation with the sequential placer and compared stage by stage - placements "
@@ -83,7 +93,14 @@ RULE = ("pipelines on machines 1x1..8x8 (quick) / ..24x24 (thorough), torus / me
         "constraint on a dead link), nets with fan-out 0-12, self loops, repeated sinks, weights; keys = id field + "
         "fixed bits + don't-care bits inside a universe of <= 14 active bit positions; placer in {sa-python, sa-c, "
         "hilbert, rcm, breadth_first, sequential, rand} x radius {0,1,2,20} x methods {default, rd, oc, none} x target "
-        "{None, 0, small, exact, large} x api {hand-chained, place_and_route_wrapper(SystemInfo), deprecated wrapper}. "
+        "{None, 0, small, exact, large} x api {hand-chained (Machine by hand | build_machine + build_core_constraints), "
+        "place_and_route_wrapper(SystemInfo), deprecated wrapper} x resource identifiers (each of core / sdram / sram: rig's "
+        "default, or a custom string / tuple / object; 35% all default) x placer arguments (4 variants per placer: "
+        "vertex_order / chip_order reversed or shuffled, iterator, extra non-existent chip, breadth_first flag, effort) x "
+        "route() core_resource passed positionally / by keyword / omitted (default id only) x tables by "
+        "routing_tree_to_tables+minimise_tables / build_routing_tables(omit_default_routes True|False) x deprecated "
+        "reserve_monitor, align_sdram on/off x vertices_applications empty / non-empty x methods list / tuple; stage "
+        "callables given to the wrappers are transparent pass-through recorders. "
         "A case is non-trivial when the pipeline completed and some final table differs from the unminimised one or "
         "some tree was repaired around dead links; distinct = distinct canonical JSON of the problem. Model-pipeline "
         "stream: the same problem generator with placer = sequential, api = hand-chained, every radius / method chain / "
@@ -267,11 +284,63 @@ def gen_problem(rng, sizes, cfg=None, faulty=False):
     return prob
 
 
+def gen_res_ids(rng):
+    """the resource identifiers the caller names: None = rig's default sentinel (Cores / SDRAM / SRAM), otherwise an
+    application-defined identifier [kind, name] (a string, a fresh object, or a tuple)"""
+    if rng.random() < 0.35:
+        return dict(cores=None, sdram=None, sram=None)
+
+    def one(name):
+        return None if rng.random() < 0.35 else [rng.choice(["str", "obj", "tuple"]), name]
+    return dict(cores=one("my-cores"), sdram=one("my-sdram"), sram=one("my-sram"))
+
+
+def gen_extras(rng):
+    """the 'unusual but legal' arguments of the pipeline stages and wrappers"""
+    return dict(res=gen_res_ids(rng),
+                reserve_monitor=rng.random() < 0.6, align_sdram=rng.random() < 0.6,     # deprecated wrapper()
+                pvar=rng.randrange(4),                   # placer arguments: orders / breadth_first flag / effort
+                apps=rng.random() < 0.5,                 # non-empty vertices_applications
+                route_call=rng.choice(["pos", "kw", "omit"]),        # how the hand-chained caller names core_resource
+                tables_api=rng.choice(["rt2t", "rt2t", "rt2t", "brt", "brt-keep"]),   # deprecated build_routing_tables
+                methods_tuple=rng.random() < 0.5, kwargs_style=rng.choice(["dict", "none"]))
+
+
 def gen_cfg(rng, i=None):
-    return dict(placer=PLACERS[i % len(PLACERS)] if i is not None else rng.choice(PLACERS),
-                radius=rng.choice(RADII), methods=rng.choice(["default", "default", "rd", "oc", "none"]),
-                target=rng.choice(TARGETS + [None, None, "large", "large"]), target_dict=rng.random() < 0.5,
-                api=rng.choice(APIS))
+    cfg = dict(placer=PLACERS[i % len(PLACERS)] if i is not None else rng.choice(PLACERS),
+               radius=rng.choice(RADII), methods=rng.choice(["default", "default", "rd", "oc", "none"]),
+               target=rng.choice(TARGETS + [None, None, "large", "large"]), target_dict=rng.random() < 0.5,
+               api=rng.choice(APIS))
+    cfg.update(gen_extras(rng))
+    return cfg
+
+
+class ResId(object):
+    """an application-defined resource identifier (hashable by identity, like rig's own sentinels)"""
+
+    def __init__(self, name):
+        self.name = name
+
+    def __repr__(self):
+        return "<ResId %s>" % self.name
+
+
+def res_ids(prob):
+    """-> (core_resource, sdram_resource, sram_resource) as python objects (fresh per call for kind obj)"""
+    from rig.place_and_route import Cores, SDRAM, SRAM
+    spec = prob["cfg"].get("res") or {}
+    out = []
+    for fld, dflt in (("cores", Cores), ("sdram", SDRAM), ("sram", SRAM)):
+        r = spec.get(fld)
+        if r is None:
+            out.append(dflt)
+        elif r[0] == "str":
+            out.append(str(r[1]))
+        elif r[0] == "tuple":
+            out.append(("resource", str(r[1])))
+        else:
+            out.append(ResId(r[1]))
+    return tuple(out)
 
 
 # --------------------------------------------------------------------------------------------
@@ -319,7 +388,7 @@ def runs_of(cores):
 
 def build(prob):
     """-> dict of python objects for the implementation"""
-    from rig.place_and_route import Machine, Cores, SDRAM, SRAM
+    from rig.place_and_route import Machine
     from rig.place_and_route.constraints import (LocationConstraint, SameChipConstraint, ReserveResourceConstraint,
                                                  RouteEndpointConstraint)
     from rig.routing_table import Routes
@@ -327,6 +396,7 @@ def build(prob):
     from rig.netlist import Net
     import collections
     api = prob["cfg"]["api"]
+    Cores, SDRAM, SRAM = ids = res_ids(prob)      # the identifiers the caller names (default or application-defined)
     vr = collections.OrderedDict()
     for v, k, sd in prob["vr"]:
         d = {}
@@ -346,7 +416,8 @@ def build(prob):
             cs.append(LocationConstraint(c["v"], tuple(c["c"])))
         else:
             cs.append(SameChipConstraint(list(c["vs"])))
-    o = dict(vr=vr, nets=nets, net_keys=net_keys, user_cs=cs, sysinfo=build_sysinfo(prob))
+    o = dict(vr=vr, nets=nets, net_keys=net_keys, user_cs=cs, sysinfo=build_sysinfo(prob), ids=ids,
+             apps=({v: "app%d.aplx" % (v % 3) for v in vr} if prob["cfg"].get("apps") else {}))
     if api in ("manual", "deprecated"):
         cm = cores_map(prob)
         o["machine"] = Machine(prob["w"], prob["h"],
@@ -357,7 +428,8 @@ def build(prob):
                                dead_links=set((x, y, Links(l)) for x, y, l in prob["dead_links"]))
         res = []
         busy = busy_map(prob)
-        skip0 = api == "deprecated"     # the deprecated wrapper reserves core 0 itself
+        # the deprecated wrapper reserves core 0 itself (unless told not to: reserve_monitor=False)
+        skip0 = api == "deprecated" and prob["cfg"].get("reserve_monitor", True)
         glob0 = skip0 or (all(0 in busy.get(c, ()) for c in cm) and bool(cm))
         if glob0 and not skip0:
             res.append(ReserveResourceConstraint(Cores, slice(0, 1)))
@@ -368,16 +440,38 @@ def build(prob):
     return o
 
 
-def placer_call(name, seed):
-    """-> (function, kwargs)"""
+def placer_call(name, seed, prob=None):
+    """-> (function, kwargs); `pvar` of the configuration selects the optional arguments of the placer"""
     from rig.place_and_route.place import sequential, breadth_first, hilbert, rcm, rand
     from rig.place_and_route.place.sa import algorithm as sa
+    pvar = (prob["cfg"].get("pvar") or 0) if prob is not None else 0
+    r = _random.Random(seed ^ 0x3c6e)
+
+    def chip_order():
+        # every working chip exactly once; dead / non-existent coordinates are allowed and skipped
+        cs = [(x, y) for x in range(prob["w"]) for y in range(prob["h"])]
+        if pvar == 1:
+            cs.reverse()
+        else:
+            r.shuffle(cs)
+            cs.insert(r.randrange(len(cs) + 1), (prob["w"] + 2, 0))
+        return cs
     if name == "sequential":
-        return sequential.place, {}
+        kw = {}
+        if pvar in (1, 3):
+            vo = [v for v, _, _ in prob["vr"]]
+            if pvar == 1:
+                vo.reverse()
+            else:
+                r.shuffle(vo)
+            kw["vertex_order"] = vo if pvar == 1 else iter(vo)
+        if pvar in (1, 2):
+            kw["chip_order"] = chip_order()
+        return sequential.place, kw
     if name == "breadth_first":
-        return breadth_first.place, {}
+        return breadth_first.place, ({"chip_order": chip_order()} if pvar in (1, 2) else {})
     if name == "hilbert":
-        return hilbert.place, {}
+        return hilbert.place, ({"breadth_first": False} if pvar in (1, 3) else {})
     if name == "rcm":
         return rcm.place, {}
     if name == "rand":
@@ -388,7 +482,7 @@ def placer_call(name, seed):
         temps[0] += 1
         if temps[0] >= 3:
             return False
-    kw = {"random": _random.Random(seed), "effort": 0.1, "on_temperature_change": on_temp}
+    kw = {"random": _random.Random(seed), "effort": 0.1 if pvar < 2 else 0.3, "on_temperature_change": on_temp}
     if name == "sa-python":
         from rig.place_and_route.place.sa.python_kernel import PythonKernel
         kw.update(kernel=PythonKernel, kernel_kwargs={"no_warn": True})
@@ -410,78 +504,127 @@ def target_for(cfg, n):
 
 
 def run_pipeline(prob):
-    """run the real pipeline; -> dict(status, placements, allocations, routes, tables0, tables1, targets, methods)"""
+    """run the real pipeline; -> dict(status, placements, allocations, routes, tables0, tables1, targets, methods)
+
+    The caller's view of the public interface is exercised as a user may legally use it: the three resource
+    identifiers are rig's defaults or application-defined objects (passed to the wrappers / to build_machine,
+    build_core_constraints, Machine, route), the stage functions are handed to the wrappers as custom callables
+    (transparent pass-through recorders: whatever the wrapper passes is what the stage receives), with their
+    optional keyword arguments, and the deprecated entry points are used with their optional flags."""
     import rig.place_and_route as pr
-    from rig.place_and_route.utils import build_machine, build_core_constraints
+    from rig.place_and_route.utils import build_machine, build_core_constraints, build_routing_tables
     from rig.routing_table import routing_tree_to_tables, minimise_tables, remove_default_routes
     from rig.routing_table.utils import build_routing_table_target_lengths
     import rig.geometry as geometry
     from rig.place_and_route.route import utils as rutils
+    import warnings
     cfg = prob["cfg"]
     o = build(prob)
+    core_id, sdram_id, sram_id = o["ids"]
+    custom = {"cores": core_id is not pr.Cores, "sdram": sdram_id is not pr.SDRAM, "sram": sram_id is not pr.SRAM}
     _random.seed(prob["seed"])          # geometry.py / route/utils.py draw from the global generator
     orig_random = (geometry.random, rutils.random)
     if prob.get("c03_rseed") is not None:
         # the tie-provoking stand-in of the C03 harness (module attribute, no source change)
         geometry.random = rutils.random = c03.FakeRandom(prob["c03_rseed"], [])
-    place, pkw = placer_call(cfg["placer"], prob["seed"] ^ 0x5bd1)
+    place, pkw = placer_call(cfg["placer"], prob["seed"] ^ 0x5bd1, prob)
     rec = {}
 
-    def rec_place(vr, nets, machine, cs, **kw):
-        rec["placements"] = place(vr, nets, machine, cs, **kw)
+    # custom stage callables: transparent pass-through (no assumption on how the wrapper calls them)
+    def rec_place(*a, **kw):
+        rec["placements"] = place(*a, **kw)
         return rec["placements"]
 
-    def rec_alloc(vr, nets, machine, cs, placements, **kw):
-        rec["allocations"] = pr.allocate(vr, nets, machine, cs, placements, **kw)
+    def rec_alloc(*a, **kw):
+        rec["allocations"] = pr.allocate(*a, **kw)
         return rec["allocations"]
 
-    def rec_route(vr, nets, machine, cs, placements, allocations, core_resource, **kw):
-        rec["routes"] = pr.route(vr, nets, machine, cs, placements, allocations, core_resource, **kw)
+    def rec_route(*a, **kw):
+        rec["routes"] = pr.route(*a, **kw)
         return rec["routes"]
     out = dict(o=o, methods=METHODS[cfg["methods"]])
+    meths = impl_methods(out["methods"])
+    if cfg.get("methods_tuple"):
+        meths = tuple(meths)
+    rkw = {"radius": cfg["radius"]}
+    # keyword arguments of the wrappers that are only named when they differ from the default / when asked to
+    wkw = {}
+    if custom["cores"] or cfg.get("kwargs_style") == "dict":
+        wkw["core_resource"] = core_id
+    if custom["sdram"] or cfg.get("kwargs_style") == "dict":
+        wkw["sdram_resource"] = sdram_id
     try:
-        if cfg["api"] == "wrapper":
-            out["stage"] = "wrapper"
-            _, _, _, final = pr.place_and_route_wrapper(
-                o["vr"], {}, o["nets"], o["net_keys"], o["sysinfo"], o["user_cs"],
-                place=rec_place, place_kwargs=pkw, allocate=rec_alloc, route=rec_route,
-                route_kwargs={"radius": cfg["radius"]}, minimise_tables_methods=impl_methods(out["methods"]))
-            out["targets"] = build_routing_table_target_lengths(o["sysinfo"])
-            out["tables0"] = routing_tree_to_tables(rec["routes"], o["net_keys"])
-        elif cfg["api"] == "deprecated":
-            out["stage"] = "wrapper"
-            out["methods"] = ["rd-only"]
-            _, _, _, final = pr.wrapper(o["vr"], {}, o["nets"], o["net_keys"], o["machine"], o["cs"],
-                                        place=rec_place, place_kwargs=pkw, allocate=rec_alloc, route=rec_route,
-                                        route_kwargs={"radius": cfg["radius"]})
-            out["targets"] = None
-            out["tables0"] = routing_tree_to_tables(rec["routes"], o["net_keys"])
-        else:
-            if cfg["api"] == "manual-sysinfo":
-                machine = build_machine(o["sysinfo"])
-                cs = build_core_constraints(o["sysinfo"]) + o["user_cs"]
+        with warnings.catch_warnings():
+            warnings.simplefilter("ignore")
+            if cfg["api"] == "wrapper":
+                out["stage"] = "wrapper"
+                if custom["sram"] or cfg.get("kwargs_style") == "dict":
+                    wkw["sram_resource"] = sram_id
+                if cfg.get("kwargs_style") == "dict":
+                    wkw["allocate_kwargs"] = {}
+                _, _, _, final = pr.place_and_route_wrapper(
+                    o["vr"], o["apps"], o["nets"], o["net_keys"], o["sysinfo"], o["user_cs"],
+                    place=rec_place, place_kwargs=pkw, allocate=rec_alloc, route=rec_route,
+                    route_kwargs=rkw, minimise_tables_methods=meths, **wkw)
+                out["targets"] = build_routing_table_target_lengths(o["sysinfo"])
+                out["tables0"] = routing_tree_to_tables(rec["routes"], o["net_keys"])
+            elif cfg["api"] == "deprecated":
+                out["stage"] = "wrapper"
+                out["methods"] = ["rd-only"]
+                if not cfg.get("reserve_monitor", True):
+                    wkw["reserve_monitor"] = False
+                if not cfg.get("align_sdram", True):
+                    wkw["align_sdram"] = False
+                _, _, _, final = pr.wrapper(o["vr"], o["apps"], o["nets"], o["net_keys"], o["machine"], o["cs"],
+                                            place=rec_place, place_kwargs=pkw, allocate=rec_alloc, route=rec_route,
+                                            route_kwargs=rkw, **wkw)
+                out["targets"] = None
+                out["tables0"] = routing_tree_to_tables(rec["routes"], o["net_keys"])
             else:
-                machine, cs = o["machine"], o["cs"]
-            out["stage"] = "place"
-            rec_place(o["vr"], o["nets"], machine, cs, **pkw)
-            out["stage"] = "allocate"
-            rec_alloc(o["vr"], o["nets"], machine, cs, rec["placements"])
-            out["stage"] = "route"
-            from rig.place_and_route import Cores
-            rec_route(o["vr"], o["nets"], machine, cs, rec["placements"], rec["allocations"], Cores,
-                      radius=cfg["radius"])
-            out["stage"] = "tables"
-            out["tables0"] = routing_tree_to_tables(rec["routes"], o["net_keys"])
-            out["stage"] = "minimise"
-            if cfg["methods"] == "none" and cfg["target"] is None:
-                final = dict(out["tables0"])
-                out["targets"] = "skip"
-            else:
-                if cfg["target_dict"] or not (cfg["target"] is None or isinstance(cfg["target"], int)):
-                    out["targets"] = {c: target_for(cfg, len(t)) for c, t in out["tables0"].items()}
+                if cfg["api"] == "manual-sysinfo":
+                    if any(custom.values()) or cfg.get("kwargs_style") == "dict":
+                        machine = build_machine(o["sysinfo"], core_resource=core_id, sdram_resource=sdram_id,
+                                                sram_resource=sram_id)
+                        cs = build_core_constraints(o["sysinfo"], core_id) + o["user_cs"]
+                    else:
+                        machine = build_machine(o["sysinfo"])
+                        cs = build_core_constraints(o["sysinfo"]) + o["user_cs"]
                 else:
-                    out["targets"] = cfg["target"]
-                final = minimise_tables(out["tables0"], out["targets"], impl_methods(out["methods"]))
+                    machine, cs = o["machine"], o["cs"]
+                out["stage"] = "place"
+                rec_place(o["vr"], o["nets"], machine, cs, **pkw)
+                out["stage"] = "allocate"
+                rec_alloc(o["vr"], o["nets"], machine, cs, rec["placements"])
+                out["stage"] = "route"
+                how = cfg.get("route_call", "pos")
+                if how == "omit" and not custom["cores"]:
+                    rec_route(o["vr"], o["nets"], machine, cs, rec["placements"], rec["allocations"], **rkw)
+                elif how == "kw":
+                    rec_route(o["vr"], o["nets"], machine, cs, rec["placements"], allocations=rec["allocations"],
+                              core_resource=core_id, **rkw)
+                else:
+                    rec_route(o["vr"], o["nets"], machine, cs, rec["placements"], rec["allocations"], core_id, **rkw)
+                out["stage"] = "tables"
+                out["tables0"] = routing_tree_to_tables(rec["routes"], o["net_keys"])
+                out["stage"] = "minimise"
+                tapi = cfg.get("tables_api", "rt2t")
+                if tapi == "brt":
+                    # the deprecated table builder, default routes omitted
+                    final = build_routing_tables(rec["routes"], o["net_keys"])
+                    out["methods"] = ["rd-only"]
+                    out["targets"] = None
+                elif tapi == "brt-keep":
+                    final = build_routing_tables(rec["routes"], o["net_keys"], omit_default_routes=False)
+                    out["targets"] = "skip"
+                elif cfg["methods"] == "none" and cfg["target"] is None:
+                    final = dict(out["tables0"])
+                    out["targets"] = "skip"
+                else:
+                    if cfg["target_dict"] or not (cfg["target"] is None or isinstance(cfg["target"], int)):
+                        out["targets"] = {c: target_for(cfg, len(t)) for c, t in out["tables0"].items()}
+                    else:
+                        out["targets"] = cfg["target"]
+                    final = minimise_tables(out["tables0"], out["targets"], meths)
         out["status"] = "ok"
         out["tables1"] = final
     except (ImportError, SyntaxError):
@@ -546,7 +689,7 @@ def x_fillings(rng, key, mask, n):
 
 def expected(prob, out):
     """per net: (source chip, cores [[x,y,p]], exits [[x,y,l]]) from placements/allocations/constraints only"""
-    from rig.place_and_route import Cores
+    Cores = out["o"]["ids"][0]        # the cores resource identifier the caller named
     dev = {d[0]: d for d in prob["devices"]}
     pl, al = out["placements"], out["allocations"]
     res = []
@@ -632,8 +775,7 @@ def lean_requests(prob, out, rng):
             if dv:
                 sinks.append([v, x, y, 2, dv[0][3], 0])
             else:
-                from rig.place_and_route import Cores
-                sl = out["allocations"].get(v, {}).get(Cores)
+                sl = out["allocations"].get(v, {}).get(out["o"]["ids"][0])
                 sinks.append([v, x, y, 0, 0, 0] if sl is None else [v, x, y, 1, sl.start, sl.stop])
         reqs.append(dict(mj, suite="c03", op="valid_tree", sinks=sinks, source=list(pl[p[0]]),
                          tree=c03nets[i]["tree"]))
@@ -774,6 +916,19 @@ def register_result(ctx, prob, st, findings, tags, nontriv, out):
     ctx.traces += 1
     ctx.tag("status_" + st, "placer_" + cfg["placer"], "api_" + cfg["api"], "radius_%d" % cfg["radius"],
             "methods_" + cfg["methods"], "target_%s" % (cfg["target"],), *tags)
+    res = cfg.get("res") or {}
+    ctx.tag("core_resource_" + ("default" if res.get("cores") is None else "custom_" + res["cores"][0]),
+            "sdram_resource_" + ("default" if res.get("sdram") is None else "custom"),
+            "sram_resource_" + ("default" if res.get("sram") is None else "custom"),
+            "api_%s_cores_%s" % (cfg["api"], "default" if res.get("cores") is None else "custom"),
+            "placer_args_%s_%d" % (cfg["placer"], cfg.get("pvar") or 0))
+    if cfg["api"] == "deprecated":
+        ctx.tag("deprecated_reserve_monitor_%s" % cfg.get("reserve_monitor", True),
+                "deprecated_align_sdram_%s" % cfg.get("align_sdram", True))
+    if cfg["api"] in ("manual", "manual-sysinfo"):
+        ctx.tag("manual_route_call_" + cfg.get("route_call", "pos"), "manual_tables_api_" + cfg.get("tables_api", "rt2t"))
+    if cfg.get("apps"):
+        ctx.tag("with_vertices_applications")
     if st != "ok":
         ctx.tag("fail_%s_at_%s" % (st, out.get("stage")))
     viol = {}
@@ -863,7 +1018,7 @@ RES_INDEX = ("Cores", "SDRAM", "SRAM")          # resource numbering of the mode
 def pipe_cfg(rng):
     return dict(placer="sequential", radius=rng.choice(RADII), methods=rng.choice(["default", "default", "rd", "oc", "none"]),
                 target=rng.choice([None, None, None, "large", "large", "exact", "small", 0]), target_dict=rng.random() < 0.5,
-                api="manual")
+                api="manual", res=gen_res_ids(rng))
 
 
 def gen_pipe_problem(rng, sizes, faulty=False):
@@ -897,7 +1052,6 @@ def run_manual_recorded(prob):
     """hand-chained place (sequential) -> allocate -> route -> routing_tree_to_tables -> minimise_tables on the real
     code, with recorders (module attributes wrapped from outside) for what `route()` draws from sets and the RNG"""
     import rig.place_and_route as pr
-    from rig.place_and_route import Cores
     from rig.place_and_route.place import sequential
     from rig.place_and_route.route import ner
     from rig.place_and_route.route import utils as rutils
@@ -905,6 +1059,7 @@ def run_manual_recorded(prob):
     import rig.geometry as geometry
     cfg = prob["cfg"]
     o = build(prob)
+    Cores = o["ids"][0]
     tape = []
     fake = c03.FakeRandom(prob["c03_rseed"], tape)
     orig = (geometry.random, rutils.random, ner.ner_net, ner.copy_and_disconnect_tree)
@@ -958,10 +1113,10 @@ def run_manual_recorded(prob):
 
 def pipe_request(prob, out):
     """the `pipeline` request of the Lean driver: the problem in rig's vocabulary + the recorded oracle inputs"""
-    from rig.place_and_route import Cores, SDRAM, SRAM
     from rig.place_and_route.constraints import (LocationConstraint, SameChipConstraint, ReserveResourceConstraint,
                                                  RouteEndpointConstraint)
     o = out["o"]
+    Cores, SDRAM, SRAM = o["ids"]
     ridx = {Cores: 0, SDRAM: 1, SRAM: 2}
     vr = [[v, [[ridx[r], int(a)] for r, a in d.items()]] for v, d in o["vr"].items()]
     m = o["machine"]
@@ -1021,8 +1176,6 @@ def pipe_expected_error(out):
 
 def eval_pipe_problems(ctx, probs):
     """model pipeline = implementation, stage by stage up to the FINAL tables (exact per-chip equality)"""
-    from rig.place_and_route import Cores, SDRAM, SRAM
-    ridx = {Cores: 0, SDRAM: 1, SRAM: 2}
     runs, reqs = [], []
     for prob in probs:
         out = run_manual_recorded(prob)
@@ -1032,6 +1185,7 @@ def eval_pipe_problems(ctx, probs):
     for prob, out, r in zip(probs, runs, replies):
         ctx.traces += 1
         st = out["status"]
+        ridx = {rid: i for i, rid in enumerate(out["o"]["ids"])}
         tags = ["pipe_status_" + st, "pipe_in_domain" if in_domain(prob) else "pipe_OUT_OF_DOMAIN"]
         diff = None
         if isinstance(r, dict) and "proto_error" in r:
